@@ -58,6 +58,25 @@ def run(prop, tier, seed, ctx):
         ctx.violation("C06|call|%s|%s%s" % (m["arg"], m["sandbox"][0] if m["sandbox"][0] != "ok" else "different-result",
                                             "|aliased-arguments" if m["fn"] == "alias_mutate" else ""),
                       "call(%r, <%s>, %s): direct call gives %s, sandbox gives %s" % (m["fn"], m["arg"], m["style"], m["direct"], m["sandbox"]), m)
+    # ---- sessions: run once, then calls that rebind / mutate / delete / create globals (specs/EquivSession.tla)
+    scfg = "MC_EquivSession_q.cfg" if tier == "quick" else "MC_EquivSession_t.cfg"
+    sres = tlc.run("EquivSession", scfg, workers=4, timeout=300)
+    tlc.require_ok(sres, scfg)
+    ctx.add_tlc(sres, "sessions of stateful calls, threaded and not: SameReturn, SameGlobals " + scfg)
+    scases = list(enumerate(sres.records))
+    sm = shard_map("bind.equiv", "session_chunk", scases, chunk=16)
+    ctx.cov["replayed_cases"] += len(scases)
+    ctx.count(len(scases), ("session:" + json.dumps([r["threaded"], [h["op"] for h in r["hist"]]]) for _, r in scases))
+    for m in sm:
+        if m["kind"] == "environment":
+            raise MachineryError("session environment model wrong: %s" % m["detail"])
+        ctx.violation("C06|session|%s|%s|%s" % ("threaded" if m["threaded"] else "plainrun", m["op"], "+".join(m["fields"])),
+                      "session %s (threaded=%s): after step %d (%s) the sandbox differs from direct calls in %s: plain %s sandbox %s" % (
+                          [h["op"] for h in m["case"]["hist"]], m["threaded"], m["step"], m["op"], m["fields"], m["plain"], m["sandbox"]), m)
+    mres = tlc.run("EquivSession", "MUT_EquivSession_snapshot.cfg", workers=2, timeout=300)
+    if "SameGlobals" not in mres.violated:
+        raise MachineryError("mutant snapshot_namespace did not violate SameGlobals")
+    ctx.notes.append("self-test: executions run in a merged-back copy of the namespace violate SameGlobals")
 
 
 def replay(prop, rep):
@@ -65,5 +84,9 @@ def replay(prop, rep):
     from engine.core import setup_repo_path
     setup_repo_path()
     r = rep["replay"]
+    if r.get("kind") == "session":
+        out = B.session_chunk([(0, r["case"])], None)
+        print(json.dumps(out, indent=1, default=repr)[:2500])
+        return 1 if out else 0
     print(json.dumps(r, indent=1, default=repr)[:2500])
     return 1
